@@ -113,6 +113,9 @@ pub const HARNESSES: &[HarnessDef] = &[
     HarnessDef { name: "scenario", presets: &["plain", "buggify", "eviction", "sets"], n: (100, 800), n_thorough: 4000, cases: (40, 400) },
     HarnessDef { name: "event_sim", presets: &["plain", "lossy", "partitioned"], n: (100, 1500), n_thorough: 6000, cases: (40, 400) },
     HarnessDef { name: "sim_store", presets: &["no_faults", "default", "chaos"], n: (100, 600), n_thorough: 3000, cases: (40, 400) },
+    // the crash / recovery bookkeeping of the simulator on its own, with COARSE ticks: several
+    // nodes crash, recover and become due inside one advance_time call
+    HarnessDef { name: "crash_sim", presets: &["coarse", "fine"], n: (20, 200), n_thorough: 1000, cases: (40, 400) },
 ];
 
 pub fn def(name: &str) -> Option<&'static HarnessDef> {
@@ -142,8 +145,63 @@ pub fn run_harness(name: &str, seed: u64, preset: &str, n: u32) -> Result<Transc
         "scenario" => scenario(seed, preset, n),
         "event_sim" => event_sim(seed, preset, n),
         "sim_store" => sim_store(seed, preset, n),
+        "crash_sim" => crash_sim(seed, preset, n),
         _ => Err(format!("unknown harness {}", name)),
     }
+}
+
+// ---------------------------------------------------------------------------------------
+// CrashSimulator driven directly: crashes, recoveries with drawn durations, coarse ticks
+// ---------------------------------------------------------------------------------------
+
+fn crash_sim(seed: u64, preset: &str, n: usize) -> Result<Transcript, String> {
+    use redis_sim::simulator::{CrashConfig, CrashReason, CrashSimulator, VirtualTime};
+    let tick: u64 = match preset {
+        "coarse" => 5_000,
+        "fine" => 37,
+        _ => return bad_preset("crash_sim", preset),
+    };
+    let nodes = 12usize;
+    let mut sim = CrashSimulator::with_config(CrashConfig::default());
+    for i in 0..nodes {
+        sim.register_node(HostId(i));
+    }
+    let mut rng = SimulatedRng::new(seed ^ 0xC4A5_0001);
+    let mut wl = DeterministicRng::new(seed ^ 0xC4A5_0002);
+    let mut t = Transcript::new();
+    hook(Point::Constructed);
+    let mut now = 0u64;
+    let mut crashes = 0u64;
+    for step in 0..n {
+        if step == n / 2 {
+            hook(Point::Mid);
+        }
+        // a burst of crashes (power failure of a rack), recoveries started at once
+        let k = 1 + wl.gen_range(0, 6) as usize;
+        for _ in 0..k {
+            let id = HostId(wl.gen_range(0, nodes as u64) as usize);
+            if sim.is_running(id) {
+                sim.crash_node(id, VirtualTime(now), CrashReason::PowerFailure);
+                crashes += 1;
+            }
+        }
+        for i in 0..nodes {
+            if sim.is_crashed(HostId(i)) {
+                let _ = sim.start_recovery(&mut rng, HostId(i), VirtualTime(now));
+            }
+        }
+        now += tick + wl.gen_range(0, tick / 4 + 1);
+        let done = sim.advance_time(VirtualTime(now));
+        t.lines.push(format!("step[{}] t={} completed={:?} recovering={:?} crashed={:?}", step, now, done, sim.recovering_nodes(), sim.crashed_nodes()));
+    }
+    let st = sim.stats();
+    t.dbg("stats.total_crashes", &st.total_crashes);
+    t.dbg("stats.total_recoveries", &st.total_recoveries);
+    t.lines.push(format!("stats.average_recovery_time_ms.bits = {:016x}", st.average_recovery_time_ms.to_bits()));
+    t.dbg("stats", st);
+    t.ops = n as u64;
+    t.faults = Some(crashes);
+    Ok(t)
 }
 
 fn bad_preset<T>(h: &str, p: &str) -> Result<T, String> {
